@@ -22,8 +22,8 @@ import (
 func init() { Registry["C08"] = runC08 }
 
 func runC08(c *mon.Ctx) {
-	nMod := c.Share(c.Scale(40_000, 2_200_000))
-	nWork := c.Share(c.Scale(16_000, 800_000))
+	nMod := c.Share(c.Scale(120_000, 2_200_000))
+	nWork := c.Share(c.Scale(48_000, 800_000))
 	for i := 0; i < nMod; i++ {
 		c08Session(c, false, fmt.Sprintf("m%d", i))
 	}
